@@ -26,9 +26,17 @@ def oracle_slowrefresh(case, impl):
     return None
 
 
+def oracle_race(case, impl):
+    """the soak itself checks what no sequential order could produce: a request reaching an endpoint with the host / path
+    another request was given, or most queries unanswered"""
+    if case == "racesoak" and impl != "ok":
+        return "concurrent soak of the whole query path: " + impl[:200]
+    return None
+
+
 SPEC = dict(
     lean_module="NV.Props.C15",
-    areas=[dict(name="race", n_quick=1, n_thorough=1, race=True, timeout=900),
+    areas=[dict(name="race", n_quick=1, n_thorough=1, race=True, oracle=oracle_race, timeout=900),
            dict(name="slowrefresh", n_quick=9, n_thorough=60, oracle=oracle_slowrefresh, timeout=300)],
     level_text="Lock discipline by proof over regenerated facts: every access to a field of a mutex-owning struct in discovery, "
                "resolver/endpoint, resolver, arp, ndp is re-extracted from the source with the lock mode held (CFG dataflow, callees "
